@@ -88,9 +88,13 @@ class Lifespan:
         if not self.supported:
             return
 
-        await self.app_queue.put({"type": "lifespan.startup"})
+        async def _startup() -> None:
+            # The app may not be taking the message either
+            await self.app_queue.put({"type": "lifespan.startup"})
+            await self.startup.wait()
+
         try:
-            await asyncio.wait_for(self.startup.wait(), timeout=self.config.startup_timeout)
+            await asyncio.wait_for(_startup(), timeout=self.config.startup_timeout)
         except asyncio.TimeoutError as error:
             raise LifespanTimeoutError("startup") from error
 
@@ -99,9 +103,13 @@ class Lifespan:
         if not self.supported:
             return
 
-        await self.app_queue.put({"type": "lifespan.shutdown"})
+        async def _shutdown() -> None:
+            # The app may not be taking the message either
+            await self.app_queue.put({"type": "lifespan.shutdown"})
+            await self.shutdown.wait()
+
         try:
-            await asyncio.wait_for(self.shutdown.wait(), timeout=self.config.shutdown_timeout)
+            await asyncio.wait_for(_shutdown(), timeout=self.config.shutdown_timeout)
         except asyncio.TimeoutError as error:
             raise LifespanTimeoutError("shutdown") from error
 
